@@ -37,6 +37,7 @@ type Script struct {
 	EchoBody   bool                `json:"echo_body,omitempty"`
 	PauseMs    int                 `json:"pause_ms,omitempty"` // sleep after every chunk (keeps the handler in flight)
 	Copy       bool                `json:"copy,omitempty"`     // send every chunk with io.Copy from a plain reader, the way a file is sent
+	Early      int                 `json:"early,omitempty"`    // an informational status (103) sent before the final one
 }
 
 type Result struct {
@@ -156,6 +157,12 @@ func (h handler) ServeHTTP(w http.ResponseWriter, r *http.Request) (int, error) 
 		panicWith(s.PanicWith, "zz_probe: scripted panic before writing")
 	}
 	if !s.NoWrite {
+		if s.Early >= 100 && s.Early < 200 && s.Early != 101 && !s.FlushFirst {
+			// an informational response (Early Hints) before the real one: not the response header
+			w.Header().Set("Link", "</style.css>; rel=preload")
+			w.WriteHeader(s.Early)
+			w.Header().Del("Link")
+		}
 		if s.FlushFirst {
 			if f, ok := w.(http.Flusher); ok {
 				f.Flush()
